@@ -29,7 +29,7 @@ ASSUMPTIONS = [
     "'no failure from a fix-capable rule' is taken from a solo reference scan of the same document with the same configuration; the set of fix-capable rules is read from `plugins list --all`",
     "probe-only fix runs are checked against a hand-verifiable model of the probe's two fixes",
 ]
-PROBES = ["fix_changed_some", "fix_changed_none", "fix_token_fix_probe", "fix_line_fix_probe", "readonly_after_logfile", "stdin_scan", "api_fix_string", "list_files", "rewrite_identical_bytes", "fix_multi_level"]
+PROBES = ["readonly_op_with_fault", "fix_changed_some", "fix_changed_none", "fix_token_fix_probe", "fix_line_fix_probe", "readonly_after_logfile", "stdin_scan", "api_fix_string", "list_files", "rewrite_identical_bytes", "fix_multi_level"]
 
 READONLY_KINDS = ["scan", "scan", "scan-stdin", "list", "api-scan_path", "api-scan_string", "api-list_path", "sub-plugins", "sub-extensions", "sub-version"]
 FIX_KINDS = ["fix", "fix", "fix", "api-fix_path", "api-fix_string"]
@@ -138,11 +138,44 @@ def generate(rng, tier, index):
             kind = rng.choice(READONLY_KINDS)
         probe_only = kind in ("fix", "scan") and rng.random() < 0.25
         op = _gen_op(rng, k, kind, probe_only)
+        if logfile_first and k > 0 and op["rt"]["kind"] == "cli" and rng.random() < 0.7:
+            # later invocation logs, but names no log file of its own
+            op["rt"]["argv"] = ["--log-level", rng.choice(["DEBUG", "INFO"])] + op["rt"]["argv"]
+        if kind in ("scan", "scan-stdin", "api-scan_string", "api-scan_path") and rng.random() < 0.3:
+            # a contained rule/parser fault inside a read-only operation: it must
+            # still leave nothing behind
+            op["want_fault"] = [rng.random(), rng.choice(["raise", "raise_after", "badtok"]), rng.choice(["RuntimeError", "IndexError", "AssertionError"])]
         if logfile_first and k == 0 and op["rt"]["kind"] == "cli":
             op["rt"]["argv"] = ["--log-file", "run%d.log" % k, "--log-level", rng.choice(["DEBUG", "INFO", "WARNING"])] + op["rt"]["argv"]
             op["logfile"] = "run%d.log" % k
         ops.append(op)
     return {"cls": workload.draw_class(rng), "world": workload.draw_world(rng), "ops": ops}
+
+
+def _plan(sc, builtin_ids):
+    """Materialise the wanted faults of read-only operations from a dry run."""
+    wanted = [(index, op["want_fault"]) for index, op in enumerate(sc["ops"]) if op.get("want_fault")]
+    if not wanted:
+        return []
+    request = _request(sc, builtin_ids)
+    request["record_sites"] = True
+    dry = cached_run(request, sc["cls"])
+    plan = []
+    if not done(dry):
+        return plan
+    for index, (fraction, act, exc) in wanted:
+        if act == "badtok":
+            sites = [s for s in dry["result"]["sites"] if s[3] == index and s[0] == "parse"]
+        else:
+            sites = [s for s in dry["result"]["sites"] if s[3] == index and s[0].startswith("cb/")]
+        if not sites:
+            continue
+        site = sites[int(fraction * len(sites)) % len(sites)]
+        entry = {"site": site[0], "file": site[1], "ord": site[2], "op": index, "act": act}
+        if act != "badtok":
+            entry["exc"] = exc
+        plan.append(entry)
+    return plan
 
 
 def _request(sc, builtin_ids):
@@ -179,7 +212,11 @@ def evaluate(sc):
     stats = collections.Counter()
     out = []
     builtin_ids = builtin_rule_ids()
-    reply = run(_request(sc, builtin_ids), sc["cls"])
+    request = _request(sc, builtin_ids)
+    plan = _plan(sc, builtin_ids)
+    if plan:
+        request["plan"] = plan
+    reply = run(request, sc["cls"])
     value = event_digest(reply)
     if not done(reply):
         return {"violations": [], "evals": 1, "digests": [(value, False)], "stats": {"not_done": 1}, "faults": {}, "skipped": True}
@@ -345,7 +382,12 @@ def evaluate(sc):
             break
     for op in sc["ops"]:
         stats["kind:" + op["kind"]] += 1
-    return {"violations": out, "evals": 1, "digests": [(value, nontrivial)], "stats": dict(stats), "faults": {}}
+    faults = {}
+    if plan:
+        fired = len(result.get("fired") or [])
+        faults["fault-in-readonly-op"] = [len(plan), fired]
+        stats["readonly_op_with_fault"] += fired
+    return {"violations": out, "evals": 1, "digests": [(value, nontrivial)], "stats": dict(stats), "faults": faults}
 
 
 def reductions(sc):
@@ -365,6 +407,11 @@ def reductions(sc):
             del target["files"][name]
             target["docs"].remove(name)
             target["rt"]["argv"].remove(name)
+            yield candidate
+    for index, op in enumerate(sc["ops"]):
+        if op.get("want_fault"):
+            candidate = copy.deepcopy(sc)
+            del candidate["ops"][index]["want_fault"]
             yield candidate
     if sc["world"] != NEUTRAL_WORLD:
         candidate = copy.deepcopy(sc)
